@@ -6,6 +6,7 @@ CONSTANTS
   NScopes = 1
   MaxOps = 4
   BoundaryRule = "le"
+  MaxBatch = 1
   Core = FALSE
 INIT Init
 NEXT Next
